@@ -717,7 +717,9 @@ func TestC09(t *testing.T) {
 	err := lp.FileLoop(func(f []string, w *bufio.Writer) {
 		if len(f) == 5 && f[0] == "case" {
 			lp.PoolTraceBegin()
-			if f[3] == "stalled" {
+			if f[1] == "dtls" && f[2] != "srvstop" {
+				fmt.Fprintln(w, runDTLS(f[2], f[3], f[4]))
+			} else if f[3] == "stalled" {
 				fmt.Fprintln(w, runStalled(f[2], f[4]))
 			} else if f[3] == "qfull" {
 				fmt.Fprintln(w, runQueueFull(t, f[1], f[4]))
